@@ -5,7 +5,7 @@ from fractions import Fraction
 import vlib
 
 CLAIM = {
- "text": "Proof (Lean 4), partial. Modelled and proved: (1) ONIOM summation as a fold over fragments each contributing E_low (system) or E_high - E_low (model): the total is E_low(system) when every model has equal high and low energies, and E_high(whole) when the single model is the whole system at the same low level (any ordered list of fragments, any commutative ring); (2) link-atom placement P = A + f (B - A) over any field: P - A is f times the bond vector (P lies on the bond line) and |P - A|^2 = f^2 |B - A|^2; (3) the atom re-ordering of DMET for nested index lists (flatten + sizes): block i of the re-ordered list is exactly fragment i, in order, for every list of fragments; the seeded variant (sorting the fragments but not the sizes) is refuted by a concrete instance; (4) the method-of-increments recursion eps_S = c_S - sum over non-empty proper subsets: the sum of all increments of the subsets of S is c_S, for every finite set and every energy assignment, hence the full-order summation equals the energy of the complete fragment. NOT proved in Lean: anything numerical (SCF, localisation, bath construction, chemical-potential root search, solvers); decided by the oracle: ONIOM runs (HF / CCSD / FCI / MP2-free levels, random H-chain and LiH..H2 geometries, fragments by count or index list, links with random factors) against the solvers run directly; link positions against the formula incl. group alignment; DMET with fragment+bath = whole space against FCISolver, electron-number residual after convergence, atom relabelling and fragment-order invariance; mi_summation on random complete energy tables for 1-5 centres against the full-fragment energy.",
+ "text": "Proof (Lean 4), partial. Modelled and proved: (1) ONIOM summation as a fold over fragments each contributing E_low (system) or E_high - E_low (model): the total is E_low(system) when every model has equal high and low energies, and E_high(whole) when the single model is the whole system at the same low level (any ordered list of fragments, any commutative ring); (2) link-atom placement P = A + f (B - A) over any field: P - A is f times the bond vector (P lies on the bond line) and |P - A|^2 = f^2 |B - A|^2; (2b) the distribution of the atoms over the ONIOM fragments (distribute_atoms), modelled WITH the code's shared list object and in-place extension: provided no whole-system fragment carries broken links, every fragment receives exactly its own selected atoms followed by its own capping atoms computed from the original system geometry - independent of the other fragments and of their order, an index outside the geometry being an error in the one exactly when it is in the other (distribute_independent, induction over the fragment list with the invariant that the system list is untouched); without the proviso the aliasing shows (distribute_alias_counterexample); the real loop is compared with the model on 200 / 3000 hand-assembled decompositions per run (no electronic structure), aliasing branch and index errors included; (3) the atom re-ordering of DMET for nested index lists (flatten + sizes): block i of the re-ordered list is exactly fragment i, in order, for every list of fragments; the seeded variant (sorting the fragments but not the sizes) is refuted by a concrete instance; (4) the method-of-increments recursion eps_S = c_S - sum over non-empty proper subsets: the sum of all increments of the subsets of S is c_S, for every finite set and every energy assignment, hence the full-order summation equals the energy of the complete fragment. NOT proved in Lean: anything numerical (SCF, localisation, bath construction, chemical-potential root search, solvers); decided by the oracle: ONIOM runs (HF / CCSD / FCI / MP2-free levels, random H-chain and LiH..H2 geometries, fragments by count or index list, links with random factors) against the solvers run directly; link positions against the formula incl. group alignment; DMET with fragment+bath = whole space against FCISolver, electron-number residual after convergence, atom relabelling and fragment-order invariance; mi_summation on random complete energy tables for 1-5 centres against the full-fragment energy.",
  "note": "Trusted: Lean kernel + standard axioms; PySCF; numpy/scipy. The MI theorem is stated on finite sets (Finset); the code's string-keyed recursion is tied to it by the oracle only.",
  "technique": "Lean 4 theorems (ONIOM telescoping, link placement, DMET re-ordering, inclusion-exclusion of increments) + re-ordering correspondence + numerical identity oracle (ONIOM, DMET, MI)"}
 
@@ -147,6 +147,71 @@ def oniom_two_capped_case(ctx, rng):
         ctx.violation(f"ONIOM with two capped model fragments: E_ONIOM = {e!r}, E_low(system) + sum over fragments of (E_high - E_low) of the fragment "
                       f"capped on its own broken bonds at fractions {f1}, {f2} = {ref!r}", case)
         return False
+    return True
+
+
+def distribute_case(ctx, rng):
+    """distribute_atoms against the model (distribute: the loop with its shared list object; distribute_independent: every
+    fragment gets its own atoms and caps only).  No electronic structure is run: the object is assembled by hand."""
+    from tangelo.problem_decomposition.oniom.oniom_problem_decomposition import ONIOMProblemDecomposition
+    from tangelo.problem_decomposition.oniom._helpers.helper_classes import Fragment, Link
+    n = rng.randint(3, 7)
+    pts = set()
+    while len(pts) < n:
+        pts.add((1000 * rng.randint(-3, 3), 1000 * rng.randint(-3, 3), 1000 * rng.randint(-3, 3)))
+    pts = list(pts)
+    rng.shuffle(pts)
+    specs = []
+    for k in range(rng.randint(1, 4)):
+        r = rng.random()
+        if k == 0 and r < 0.8:
+            sel = None
+        elif r < 0.3:
+            sel = rng.randint(1, n + 1)
+        else:
+            sel = rng.sample(range(n), rng.randint(1, n - 1))
+            if rng.random() < 0.06:
+                sel[rng.randrange(len(sel))] = n + rng.randint(0, 2)       # index outside the geometry
+        links = []
+        if sel is not None or rng.random() < 0.1:                           # a capped whole-system fragment: the aliasing branch of the model
+            for _ in range(rng.choice([0, 0, 1, 2, 3])):
+                a, b = rng.sample(range(n), 2)
+                if rng.random() < 0.04:
+                    b = n + 1
+                links.append([a, b, rng.choice([5, 7, 10, 12])])
+        specs.append({"sel": sel, "links": links})
+    case = {"kind": "distribute", "geom": [list(p) for p in pts], "frags": specs}
+    ctx.case(case, nontrivial=any(f["links"] for f in specs), sample=False)
+    ctx.count("distribute")
+    frags = [Fragment(solver_low="HF", solver_high=None if f["sel"] is None else "CCSD", selected_atoms=f["sel"], broken_links=[Link(a, b, k / 10, "H") for a, b, k in f["links"]] or None) for f in specs]
+    obj = ONIOMProblemDecomposition.__new__(ONIOMProblemDecomposition)
+    obj.geometry = [("H", (float(x), float(y), float(z))) for x, y, z in pts]
+    obj.fragments = frags
+    obj.verbose = False
+    try:
+        obj.distribute_atoms()
+        got = [[[float(c) for c in at[1]] for at in f.geometry] for f in frags]
+    except IndexError:
+        got = "ERR:index"
+    j = ctx.model.ask({"op": "oniom_distribute", "geom": case["geom"], "frags": specs})
+    if not j:
+        return True
+    want = j.get("r") or j.get("frags")
+    same = (got == want) if isinstance(got, str) or isinstance(want, str) else (
+        len(got) == len(want) and all(len(g) == len(w) and all(max(abs(p - q) for p, q in zip(a, b)) < 1e-9 for a, b in zip(g, w)) for g, w in zip(got, want)))
+    if not same:
+        # which statement is broken?  the independent one (own atoms + own caps) is the property; the aliasing model only explains the code
+        ind = j.get("independent")
+        no_alias = all(f["sel"] is not None or not f["links"] for f in specs)
+        if no_alias and not isinstance(got, str) and ind is not None:
+            ctx.violation(f"ONIOM distribute_atoms: fragment geometries {got} differ from each fragment's own atoms plus its own capping atoms {ind}", case)
+        else:
+            ctx.mismatch("distribute_atoms differs from the model", case, want, got)
+        return False
+    if isinstance(got, str):
+        ctx.count("distribute:index-error")
+    if any(f["sel"] is None and f["links"] for f in specs):
+        ctx.count("distribute:capped-whole-system (aliasing branch)")
     return True
 
 
@@ -389,6 +454,8 @@ def run(ctx):
         ok &= oniom_two_capped_case(ctx, rng)
     for _ in range(ctx.n(150, 1500)):
         ok &= link_case(ctx, rng)
+    for _ in range(ctx.n(200, 3000)):
+        ok &= distribute_case(ctx, rng)
     for _ in range(ctx.n(6, 40)):
         ok &= dmet_case(ctx, rng, "exact")
     for _ in range(ctx.n(3, 20)):
@@ -410,6 +477,8 @@ def replay(ctx, obj):
         return all(oniom_case(ctx, rng) for _ in range(10))
     if k == "link":
         return all(link_case(ctx, rng) for _ in range(500))
+    if k == "distribute":
+        return all(distribute_case(ctx, rng) for _ in range(500))
     if k == "dmet":
         return all(dmet_case(ctx, rng, obj.get("sub", "relabel")) for _ in range(6))
     return all(mi_case(ctx, rng) for _ in range(300))
